@@ -50,7 +50,12 @@ class Executor:
         box: list = []
 
         def rd():
-            box.append(self.p.stdout.readline())
+            while True:
+                ln = self.p.stdout.readline()
+                if ln and ln.startswith('{"ev": "hb"}'):
+                    continue  # heartbeat of a long run
+                box.append(ln)
+                return
 
         try:
             self.p.stdin.write(json.dumps(scn) + "\n")
@@ -177,7 +182,11 @@ def run_batch(check, prop: str, tier: str, seed: int, runs: int, budget: float, 
                 continue
             results.setdefault(r, []).append(ev)
             agg["runs"] += 1
-            agg["stats"].update(ev.get("stats", {}))
+            for sk, sv in ev.get("stats", {}).items():
+                if sk.startswith("max_"):
+                    agg["stats"][sk] = max(agg["stats"][sk], sv)
+                else:
+                    agg["stats"][sk] += sv
             if ev.get("shapes"):
                 agg["shapes"].update(ev["shapes"])
             elif ev.get("shape"):
